@@ -10,7 +10,7 @@ INCLUDES  := -Ishim -I$(REPO) -I$(REPO)/bluetoe/sm/include -I$(REPO)/bluetoe/uti
              -I$(REPO)/bluetoe/bindings/nordic/include
 LDFLAGS   := $(SAN) -pthread
 
-HARNESSES := wl_sim nq_sim ring_sim irq_sim pdu_sim sdu_sim gatt_sim stack_sim sm_sim l2cap_sim csc_sim bl_sim nrf_sim
+HARNESSES := wl_sim nq_sim ring_sim irq_sim pdu_sim sdu_sim gatt_sim stack_sim sm_sim l2cap_sim csc_sim bl_sim nrf_sim lat_sim
 
 REPO_OBJS := $(BUILD)/repo/address.o $(BUILD)/repo/channel_map.o $(BUILD)/repo/delta_time.o $(BUILD)/repo/connection_details.o
 
